@@ -1,4 +1,6 @@
 import AtsimModel.Model.Dups
+import AtsimModel.Model.Validate
+import AtsimModel.Gen.Logic
 /-!
 # C20 — each interaction / form is defined at most once; duplicates are rejected
 
@@ -243,5 +245,318 @@ theorem C20_binding_example :
     readIni currentCfg [.sec "Pair", .kv "A-B" "x", .kv "B - B" "y", .sec "EAM-Embed", .kv "A" "z"]
       = .ok ⟨[("Pair", [("A-B", "x"), ("B-B", "y")]), ("EAM-Embed", [("A", "z")])], []⟩ := by
   rfl
+
+/-! ## The code itself: the duplicate checks regenerated from the source
+
+`Atsim.Gen.Logic.dup_pairs` / `dup_table_forms` are `ConfigParser._check_for_duplicate_pairs` and `_TableFormSection.check_for_duplicate_table_forms` as
+`translator/py2lean_logic.py` produces them on every run: the loops over sections and keys, the `seen` set (members in order of first insertion; only membership is
+used) and the `seen.setdefault(label, []).append(name)` dictionary are the code's own.  For EVERY configuration (sections with their keys in file order) they decide
+what the model's `dupPairs` / `dupLabels` decide. -/
+namespace CodeTie
+open Atsim.Gen.Logic
+
+/-- the pair a key stands for (`_pair_species_func`), when it is one -/
+def keyPair (k : String) : Option (String × String) := splitKey (pySplit1 k '-')
+
+def pairSections : List String := ["Pair", "EAM-ADP-Dipole", "EAM-ADP-Quadrupole"]
+
+end CodeTie
+
+/-! ### helper lemmas for the code ties -/
+section CodeTieProofs
+open Atsim.Gen.Logic CodeTie
+
+theorem psf_some (k : String) (p : String × String) (h : keyPair k = some p) :
+    pair_species_func strip k = .ok p := by
+  unfold keyPair at h
+  unfold pair_species_func
+  generalize pySplit1 k '-' = l at h ⊢
+  match l, h with
+  | [], h => simp [splitKey] at h
+  | [a], h => simp [splitKey] at h
+  | [a, b], h =>
+    simp only [splitKey] at h
+    split at h
+    · cases h
+    · rename_i hb
+      simp only [Bool.or_eq_true, beq_iff_eq, not_or] at hb
+      cases h
+      simp [hb.1, hb.2]
+  | a :: b :: c :: r, h => simp [splitKey] at h
+
+theorem psf_none (k : String) (h : keyPair k = none) :
+    ∃ e, pair_species_func strip k = .error e := by
+  unfold keyPair at h
+  unfold pair_species_func
+  generalize pySplit1 k '-' = l at h ⊢
+  match l, h with
+  | [], h => exact ⟨.notTwoParts, by simp⟩
+  | [a], h => exact ⟨.notTwoParts, by simp⟩
+  | [a, b], h =>
+    simp only [splitKey] at h
+    split at h
+    · rename_i hb
+      simp only [Bool.or_eq_true, beq_iff_eq] at hb
+      by_cases ha : strip a = ""
+      · exact ⟨.blankSpecies, by simp [ha]⟩
+      · have hb' := hb.resolve_left ha
+        exact ⟨.blankSpecies, by simp [ha, hb']⟩
+    · cases h
+  | a :: b :: c :: r, h => exact ⟨.notTwoParts, by simp; omega⟩
+
+
+theorem loop2_wf (sn : String) (cfg : CfgRec) (keys : List String) (hk : ∀ k ∈ keys, (keyPair k).isSome)
+    (seen : List (String × String)) :
+    dup_pairs_loop2 strip sn seen cfg keys =
+      if dupPairsAux seen (keys.filterMap keyPair) then .error CfgErr.duplicatePair
+      else .ok (seen ++ keys.filterMap keyPair) := by
+  induction keys generalizing seen with
+  | nil => simp [dup_pairs_loop2, dupPairsAux]
+  | cons k rest ih =>
+    obtain ⟨p, hp⟩ := Option.isSome_iff_exists.1 (hk k (List.mem_cons_self ..))
+    have hrest : ∀ k ∈ rest, (keyPair k).isSome := fun k h => hk k (List.mem_cons_of_mem _ h)
+    rw [dup_pairs_loop2, psf_some k p hp, List.filterMap_cons, hp]
+    simp only [andThen, dupPairsAux]
+    by_cases h1 : seen.contains p = true
+    · simp only [h1, if_true, Bool.true_or]
+    · by_cases h2 : seen.contains (p.2, p.1) = true
+      · simp only [h2, if_true, Bool.or_true, ite_self]
+      · have h1' : seen.contains p = false := by simpa using h1
+        have h2' : seen.contains (p.2, p.1) = false := by simpa using h2
+        simp only [h1', h2', Bool.false_eq_true, if_false, Bool.or_self, setAdd]
+        rw [ih hrest (seen ++ [p])]
+        simp
+
+theorem loop2_not_wf (sn : String) (cfg : CfgRec) (keys : List String) (hk : ¬ ∀ k ∈ keys, (keyPair k).isSome)
+    (seen : List (String × String)) :
+    ∃ e, dup_pairs_loop2 strip sn seen cfg keys = .error e := by
+  induction keys generalizing seen with
+  | nil => exact absurd (by simp) hk
+  | cons k rest ih =>
+    rw [dup_pairs_loop2]
+    cases hp : keyPair k with
+    | none =>
+      obtain ⟨e, he⟩ := psf_none k hp
+      exact ⟨e, by rw [he]; rfl⟩
+    | some p =>
+      have hrest : ¬ ∀ k ∈ rest, (keyPair k).isSome := by
+        intro h
+        apply hk
+        intro k' hk'
+        rcases List.mem_cons.1 hk' with rfl | h'
+        · simp [hp]
+        · exact h k' h'
+      rw [psf_some k p hp]
+      simp only [andThen]
+      by_cases h1 : seen.contains p = true
+      · exact ⟨_, by rw [if_pos h1]⟩
+      · by_cases h2 : seen.contains (p.2, p.1) = true
+        · exact ⟨_, by rw [if_neg h1, if_pos h2]⟩
+        · obtain ⟨e, he⟩ := ih hrest (setAdd seen p)
+          exact ⟨e, by rw [if_neg h1, if_neg h2]; exact he⟩
+
+theorem loop1_wf (cfg : CfgRec) (ss : List String)
+    (hkeys : ∀ s ∈ ss, ∀ k ∈ cfgKeys cfg s, (keyPair k).isSome) :
+    dup_pairs_loop1 strip cfg ss =
+      if ss.any (fun s => cfgHas cfg s && dupPairs ((cfgKeys cfg s).filterMap keyPair)) then .error CfgErr.duplicatePair
+      else .ok () := by
+  induction ss with
+  | nil => simp [dup_pairs_loop1]
+  | cons s rest ih =>
+    have ih' := ih (fun s h => hkeys s (List.mem_cons_of_mem _ h))
+    rw [dup_pairs_loop1, List.any_cons]
+    by_cases hh : cfgHas cfg s = true
+    · simp only [hh, if_true, Bool.true_and]
+      rw [loop2_wf _ _ _ (hkeys s (List.mem_cons_self ..))]
+      unfold dupPairs
+      by_cases hd : dupPairsAux [] ((cfgKeys cfg s).filterMap keyPair) = true
+      · simp [hd, andThen]
+      · have hd' : dupPairsAux [] ((cfgKeys cfg s).filterMap keyPair) = false := by simpa using hd
+        simp only [hd', Bool.false_eq_true, if_false, andThen, Bool.false_or]
+        exact ih'
+    · have hh' : cfgHas cfg s = false := by simpa using hh
+      simp only [hh', Bool.false_eq_true, if_false, Bool.false_and, Bool.false_or]
+      exact ih'
+
+theorem loop1_ok_iff (cfg : CfgRec) (ss : List String) :
+    dup_pairs_loop1 strip cfg ss = .ok () ↔
+      ∀ s ∈ ss, cfgHas cfg s = true →
+        (∀ k ∈ cfgKeys cfg s, (keyPair k).isSome) ∧ dupPairs ((cfgKeys cfg s).filterMap keyPair) = false := by
+  induction ss with
+  | nil => simp [dup_pairs_loop1]
+  | cons s rest ih =>
+    rw [dup_pairs_loop1, List.forall_mem_cons]
+    by_cases hh : cfgHas cfg s = true
+    · simp only [hh, if_true, true_implies]
+      by_cases hw : ∀ k ∈ cfgKeys cfg s, (keyPair k).isSome
+      · rw [loop2_wf _ _ _ hw]
+        unfold dupPairs
+        by_cases hd : dupPairsAux [] ((cfgKeys cfg s).filterMap keyPair) = true
+        · simp [hd, andThen]
+        · have hd' : dupPairsAux [] ((cfgKeys cfg s).filterMap keyPair) = false := by simpa using hd
+          simp only [hd', Bool.false_eq_true, if_false, andThen]
+          rw [ih]
+          unfold dupPairs
+          exact ⟨fun h => ⟨⟨hw, trivial⟩, h⟩, fun h => h.2⟩
+      · obtain ⟨e, he⟩ := loop2_not_wf s cfg _ hw []
+        rw [he]
+        simp only [andThen]
+        constructor
+        · intro h; cases h
+        · intro h; exact absurd h.1.1 hw
+    · have hh' : cfgHas cfg s = false := by simpa using hh
+      simp only [hh', Bool.false_eq_true, if_false, false_implies, true_and]
+      exact ih
+
+theorem andThen_unit (x : Except CfgErr Unit) : andThen x (fun _ => .ok ()) = x := by
+  cases x <;> rfl
+
+
+theorem tf_loop2 (isRelevant : String → Bool) (parseName : String → String) (cfg : CfgRec)
+    (seen l : List (String × List String)) :
+    dup_table_forms_loop2 isRelevant parseName cfg seen l =
+      if l.any (fun e => decide (1 < e.2.length)) then .error CfgErr.duplicateTableForm else .ok () := by
+  induction l with
+  | nil => simp [dup_table_forms_loop2]
+  | cons e rest ih =>
+    rw [dup_table_forms_loop2, ih, List.any_cons]
+    by_cases h : 1 < e.2.length
+    · have h' : ((e.2.length : Nat) : Int) > 1 := by omega
+      simp [h, h']
+    · have h' : ¬ ((e.2.length : Nat) : Int) > 1 := by omega
+      have hd : decide (1 < e.2.length) = false := by simpa using h
+      rw [hd, Bool.false_or, if_neg (by simpa using h')]
+
+/-- the `seen` dictionary against the labels processed so far: every entry lists as many names as its label occurred, and every label has an entry -/
+def TfInv (seen : List (String × List String)) (L : List String) : Prop :=
+  (∀ e ∈ seen, e.2.length = L.count e.1) ∧ (∀ x ∈ L, ∃ e ∈ seen, e.1 = x)
+
+theorem tfInv_step (seen : List (String × List String)) (L : List String) (k v : String) (h : TfInv seen L) :
+    TfInv (multiAppend seen k v) (L ++ [k]) := by
+  obtain ⟨h1, h2⟩ := h
+  unfold multiAppend
+  by_cases ha : (seen.any fun e => e.1 == k) = true
+  · rw [if_pos ha]
+    constructor
+    · intro e he
+      obtain ⟨e0, he0, rfl⟩ := List.mem_map.1 he
+      by_cases hk : e0.1 = k
+      · have hc : List.count k [k] = 1 := by simp
+        simp only [hk, beq_self_eq_true, if_true, List.length_append, List.length_singleton, List.count_append, hc]
+        rw [h1 e0 he0, hk]
+      · have hc : List.count e0.1 [k] = 0 := List.count_eq_zero_of_not_mem (by simpa using hk)
+        have hb : (e0.1 == k) = false := by simpa using hk
+        simp only [hb, Bool.false_eq_true, if_false, List.count_append, hc, Nat.add_zero]
+        exact h1 e0 he0
+    · intro x hx
+      rcases List.mem_append.1 hx with hx | hx
+      · obtain ⟨e, he, rfl⟩ := h2 x hx
+        refine ⟨_, List.mem_map.2 ⟨e, he, rfl⟩, ?_⟩
+        by_cases hk : e.1 = k <;> simp [hk]
+      · have : x = k := by simpa using hx
+        subst this
+        obtain ⟨e, he, hek⟩ := List.any_eq_true.1 ha
+        have hek' : e.1 = x := by simpa using hek
+        refine ⟨_, List.mem_map.2 ⟨e, he, rfl⟩, ?_⟩
+        simp [hek']
+  · rw [if_neg ha]
+    have hnone : ∀ e ∈ seen, e.1 ≠ k := by
+      intro e he hk
+      exact ha (List.any_eq_true.2 ⟨e, he, by simp [hk]⟩)
+    have hkL : k ∉ L := by
+      intro hk
+      obtain ⟨e, he, hek⟩ := h2 k hk
+      exact hnone e he hek
+    constructor
+    · intro e he
+      rcases List.mem_append.1 he with he | he
+      · have hc : List.count e.1 [k] = 0 := List.count_eq_zero_of_not_mem (by simpa using hnone e he)
+        simp only [List.count_append, hc, Nat.add_zero]
+        exact h1 e he
+      · have : e = (k, [v]) := by simpa using he
+        subst this
+        simp [List.count_append, List.count_eq_zero_of_not_mem hkL]
+    · intro x hx
+      rcases List.mem_append.1 hx with hx | hx
+      · obtain ⟨e, he, hex⟩ := h2 x hx
+        exact ⟨e, List.mem_append_left _ he, hex⟩
+      · have : x = k := by simpa using hx
+        subst this
+        exact ⟨(x, [v]), by simp, rfl⟩
+
+theorem tfInv_final (seen : List (String × List String)) (L : List String) (h : TfInv seen L) :
+    (seen.any (fun e => decide (1 < e.2.length))) = dupLabels L := by
+  obtain ⟨h1, h2⟩ := h
+  cases hd : dupLabels L with
+  | false =>
+    have hn : L.Nodup := (dupLabels_false_iff L).1 hd
+    rw [List.any_eq_false]
+    intro e he
+    have := List.nodup_iff_count.1 hn e.1
+    rw [← h1 e he] at this
+    simp; omega
+  | true =>
+    have hn : ¬ L.Nodup := by
+      intro hn
+      rw [(dupLabels_false_iff L).2 hn] at hd
+      cases hd
+    rw [List.nodup_iff_count] at hn
+    obtain ⟨x, hx⟩ := Classical.not_forall.1 hn
+    have hx : 1 < List.count x L := by omega
+    have hxL : x ∈ L := List.count_pos_iff.1 (by omega)
+    obtain ⟨e, he, rfl⟩ := h2 x hxL
+    rw [List.any_eq_true]
+    exact ⟨e, he, by rw [h1 e he]; simpa using hx⟩
+
+theorem tf_loop1 (isRelevant : String → Bool) (parseName : String → String) (cfg : CfgRec)
+    (ss : List String) (seen : List (String × List String)) (L : List String) (h : TfInv seen L) :
+    dup_table_forms_loop1 isRelevant parseName cfg seen ss =
+      if dupLabels (L ++ (ss.filter isRelevant).map parseName) then .error CfgErr.duplicateTableForm else .ok () := by
+  induction ss generalizing seen L with
+  | nil =>
+    rw [dup_table_forms_loop1, tf_loop2, tfInv_final seen L h]
+    simp
+  | cons s rest ih =>
+    rw [dup_table_forms_loop1]
+    by_cases hr : isRelevant s = true
+    · rw [if_pos hr, List.filter_cons_of_pos hr, List.map_cons]
+      rw [ih _ (L ++ [parseName s]) (tfInv_step seen L _ s h)]
+      simp
+    · rw [if_neg hr, List.filter_cons_of_neg hr]
+      exact ih seen L h
+
+end CodeTieProofs
+
+open Atsim.Gen.Logic CodeTie in
+/-- **code tie**: when every key of the pair sections is a well-formed `A-B` key, `_check_for_duplicate_pairs` raises its duplicate error exactly when one of the three
+    sections, taken on its own, names some unordered pair twice (`dupPairs` of the pairs in file order), and otherwise accepts -/
+theorem C20_code_dup_pairs (cfg : CfgRec)
+    (hkeys : ∀ s ∈ pairSections, ∀ k ∈ cfgKeys cfg s, (keyPair k).isSome) :
+    dup_pairs strip cfg =
+      if pairSections.any (fun s => cfgHas cfg s && dupPairs ((cfgKeys cfg s).filterMap keyPair)) then .error CfgErr.duplicatePair else .ok () := by
+  unfold dup_pairs
+  rw [andThen_unit]
+  exact loop1_wf cfg pairSections hkeys
+
+open Atsim.Gen.Logic CodeTie in
+/-- **code tie**, without any assumption on the keys: the check passes iff in each of the three sections that exist every key is well-formed and no unordered pair
+    is named twice -/
+theorem C20_code_dup_pairs_ok_iff (cfg : CfgRec) :
+    dup_pairs strip cfg = .ok () ↔
+      ∀ s ∈ pairSections, cfgHas cfg s = true →
+        (∀ k ∈ cfgKeys cfg s, (keyPair k).isSome) ∧ dupPairs ((cfgKeys cfg s).filterMap keyPair) = false := by
+  unfold dup_pairs
+  rw [andThen_unit]
+  exact loop1_ok_iff cfg pairSections
+
+open Atsim.Gen.Logic in
+/-- **code tie**: `check_for_duplicate_table_forms` raises exactly when two `[Table-Form:…]` sections have the same (parsed, stripped) name -/
+theorem C20_code_dup_table_forms (isRelevant : String → Bool) (parseName : String → String) (cfg : CfgRec) :
+    dup_table_forms isRelevant parseName cfg =
+      if dupLabels (((cfgSections cfg).filter isRelevant).map parseName) then .error CfgErr.duplicateTableForm else .ok () := by
+  unfold dup_table_forms
+  have := tf_loop1 isRelevant parseName cfg (cfgSections cfg) [] [] ⟨by simp, by simp⟩
+  simpa using this
+
 
 end Atsim.C20
